@@ -61,7 +61,10 @@ CHILDREN = {
     "Branch": {"values": "list"},
 }
 
+WEIGHTMAP = {"Bag": "values"}  # value -> weight map (key union, weights add)
+
 LEAF_FIELDS = {
+    "Bag": [],
     "Count": [],
     "Sum": ["sum"],
     "Average": ["mean"],
@@ -86,7 +89,14 @@ PYTYPE = {
 
 
 def content_fields(K):
-    return ["entries"] + LEAF_FIELDS.get(K, []) + list(CHILDREN.get(K, {}))
+    return ["entries"] + LEAF_FIELDS.get(K, []) + list(CHILDREN.get(K, {})) + ([WEIGHTMAP[K]] if K in WEIGHTMAP else [])
+
+
+def wmap_plus(a, b):
+    def val(k):
+        return CIte(z3.And(a.dom(k), b.dom(k)), CFl(a.val(k).fl.add(b.val(k).fl)), CIte(a.dom(k), a.val(k), b.val(k)))
+
+    return CFam(a.ksort, lambda k: z3.Or(a.dom(k), b.dom(k)), val, None, a.pytype)
 
 
 def all_fields(K):
@@ -267,6 +277,8 @@ def plus(K, st, a, b):
         out["max"] = CFl(maxplus_spec(a["max"].fl, b["max"].fl))
     for f, kind in CHILDREN.get(K, {}).items():
         out[f] = zip_child(kind, a[f], b[f], child_plus)
+    if K in WEIGHTMAP:
+        out[WEIGHTMAP[K]] = wmap_plus(a[WEIGHTMAP[K]], b[WEIGHTMAP[K]])
     return out
 
 
@@ -307,6 +319,9 @@ def zero(K, st, a):
             out[f] = CFam(a[f].ksort, lambda k: z3.BoolVal(False), lambda k: CNONE, z3.IntVal(0), a[f].pytype)
         else:
             out[f] = map_child(kind, a[f], child_zero)
+    if K in WEIGHTMAP:
+        m = a[WEIGHTMAP[K]]
+        out[WEIGHTMAP[K]] = CFam(m.ksort, lambda k: z3.BoolVal(False), lambda k: CNONE, z3.IntVal(0), m.pytype)
     return out
 
 
@@ -329,6 +344,9 @@ def scale(K, st, a, f):
         out["max"] = a["max"]
     for fld, kind in CHILDREN.get(K, {}).items():
         out[fld] = map_child(kind, a[fld], lambda x: child_scale(x, f))
+    if K in WEIGHTMAP:
+        m = a[WEIGHTMAP[K]]
+        out[WEIGHTMAP[K]] = CFam(m.ksort, m.dom, lambda k: CFl(ff.mul(m.val(k).fl)), m.length, m.pytype)
     return out
 
 
